@@ -347,3 +347,9 @@ func (p *Peer) Received() []*Rpc {
 }
 
 func (p *Peer) Done() <-chan struct{} { return p.done }
+
+func (e *End) Writes() int {
+	e.mu.Lock()
+	defer e.mu.Unlock()
+	return e.writes
+}
